@@ -4,6 +4,12 @@
 # usage: seed_sweep.sh <tier> <seed> [seed ...]
 HERE="$(cd "$(dirname "$0")/.." && pwd)"; cd "$HERE" || exit 2
 TIER="$1"; shift
+# under `vp run --with-repo` the harness is pointed at the snapshot of /repo's HEAD, so that edits to /repo
+# (seeded changes being tried) do not disturb the sweep
+if [ -n "$VP_RUN_REPO" ] && [ -d "$VP_RUN_REPO/duke" ]; then
+  sed -i "s#\"/repo/#\"$VP_RUN_REPO/#g" sim/Cargo.toml sim/src/main.rs sim/src/engine.rs sim/src/c01.rs sim/src/c16.rs
+  echo "sweep against $VP_RUN_REPO"
+fi
 for s in "$@"; do
   for p in C01 C02 C03 C04 C05 C07 C12 C13 C14 C15 C16 C17 C19 C20; do
     t0=$(date +%s)
